@@ -202,6 +202,17 @@ func init() {
 			}
 			return len(alive)
 		},
+		// verifSetField(ptr, i, v): write field i of *ptr (also unexported ones)
+		"verifSetField": func(fr *frame, a []value) value {
+			p := a[0].(iface).v.(*value)
+			st := (*p).(structure)
+			v := a[2]
+			if itf, ok := v.(iface); ok {
+				v = itf.v
+			}
+			st[int(asInt64(a[1]))] = v
+			return nil
+		},
 		"verifGoroutineMark": func(fr *frame, a []value) value { return nil },
 		"verifGoroutines": func(fr *frame, a []value) value {
 			n := 0
